@@ -44,9 +44,11 @@ SK = "dask_array.stacking._stack"
 RD = "dask_array.reductions._reduction"
 RCM = "dask_array.reductions._common"
 CHK = "dask_array._chunk"
+SHF = "dask_array._shuffle"
+VIX = "dask_array.slicing._vindex"
 DB = "dask.blockwise"
 MT = "dask_array._materialize"
-MODS = [MT, "dask_array.core._blockwise_funcs", "dask_array.core._conversion", EX, BW, CU, RC, FA, IOB, SB, SU, "dask_array.slicing", CO, NC, TR, XP, SQ, BT, CC, SK, RD, RCM, DB]
+MODS = [MT, "dask_array.core._blockwise_funcs", "dask_array.core._conversion", EX, BW, CU, RC, FA, IOB, SB, SU, "dask_array.slicing", CO, NC, TR, XP, SQ, BT, CC, SK, RD, RCM, SHF, VIX, DB]
 STUBS = SHIM_LIST + [
     "expression classes -> symx.nodes (real methods on cloned code; constructors/tokenize bypassed, structural names); the "
     "Array collection class -> subclass with cloned methods",
@@ -66,6 +68,26 @@ class _Np(SymNp):
     asanyarray = asarray
 
 
+class IdxArray(np.ndarray):
+    """index arrays inside Shuffle._layer: .astype(<int dtype>) is the identity while entries are symbolic (a block-local
+    position is 'global index minus a symbolic block start'; forcing it through int() would enumerate the sizes)"""
+
+    def astype(self, dtype, *a, **k):
+        if self.dtype == object and any(isinstance(v, core.SymInt) for v in self.ravel().tolist()):
+            return self
+        return np.ndarray.astype(self, dtype, *a, **k)
+
+
+class _ShuffleNp(SymNp):
+    @staticmethod
+    def min_scalar_type(x):
+        return np.dtype("int64") if isinstance(x, core.SymInt) else np.min_scalar_type(x)
+
+    @staticmethod
+    def array(x, *a, **k):
+        return np.array(x, *a, **k).view(IdxArray)
+
+
 class _Warn:
     def warn(self, *a, **k):
         pass
@@ -77,6 +99,8 @@ def W(E, key="catalog"):
     w = world(key, E.symbolic, MODS, nodes=True, desugar=(EX, CU, DB),
               extra=dict(config=cfg, warnings=_Warn(), plan_rechunk=lambda old, new, *a, **k: [new]),
               clone_classes=[(CO, "Array")])
+    if E.symbolic and not isinstance(w.ns[SHF].get("np"), _ShuffleNp):
+        w.ns[SHF]["np"] = _ShuffleNp()
     w.space.reset()
     w.ns[MT]["_LOWER_CACHE"] = {}  # the process-wide lowering cache must not leak between paths / instances
     # unaligned operands are unified under 'coarse' here (no nonlinear cost model: sizes stay unbounded); the default
@@ -142,7 +166,10 @@ def _layers(node, dsk=None, seen=None):
     for op in node.dependencies():
         _layers(op, dsk, seen)
     layer = node._layer()
-    dup = set(layer) & set(dsk)
+    from dask._task_spec import DataNode
+
+    # content-addressed data nodes (e.g. a shuffle's sorter / taker arrays) may be emitted by several layers
+    dup = {k for k in set(layer) & set(dsk) if not (isinstance(layer[k], DataNode) and isinstance(dsk[k], DataNode))}
     if dup:
         raise core.HarnessError(f"layer of {node._name} redefines keys {sorted(dup, key=repr)[:3]}")
     dsk.update(layer)
@@ -242,6 +269,24 @@ def p_sum(w, p, axis, keepdims=False, split_every=None):
     return Prog(out.expr, p.ref.reduce_axis(axis, "add", keepdims=keepdims), p.dsk)
 
 
+def p_blockwise_T(w, E, p):
+    """a generic Blockwise whose argument index order is a permutation of the output's: blockwise(np.transpose, 'ji', x, 'ij')"""
+    coll = w.fn(NC, "new_collection")(p.node)
+    out = w.fn("dask_array.core._blockwise_funcs", "blockwise")(np.transpose, "ji", coll, "ij", dtype="f8")
+    return Prog(out.expr, p.ref.transpose((1, 0)), p.dsk)
+
+
+def p_take(w, E, p, axis, index):
+    """x[..., [i, j, ...], ...] through Array.__getitem__ (normalize_index -> slice_wrap_lists -> take -> Shuffle);
+    the index values are concrete, the axis is long enough to hold them"""
+    n = p.node.shape[axis]
+    E.assume(n > max(index))
+    raw = tuple(list(index) if a == axis else slice(None) for a in range(axis + 1))
+    coll = w.fn(NC, "new_collection")(p.node)
+    out = coll[raw]
+    return Prog(out.expr, p.ref[raw], p.dsk)
+
+
 def raw_index(E, spec, tag="k"):
     out = []
     for k, s in enumerate(spec):
@@ -311,6 +356,15 @@ def programs(tier):
     reg("sum(x2x2,axis=1)[a:b]", lambda w, E: p_slice(w, p_sum(w, source(w, E, "x", (2, 2)), 1), raw_index(E, (F,))), 5)
     reg("sum(x2x2,axis=0)[i]", lambda w, E: p_slice(w, p_sum(w, source(w, E, "x", (2, 2)), 0), raw_index(E, ("i",))), 4)
     reg("sum(x2+y2,axis=0)", lambda w, E: p_sum(w, _add_aligned(w, E, (2,)), 0), 3)
+    # integer-list indices (take -> Shuffle) and shuffles pushed through other nodes
+    reg("x3[[2,0,1]]", lambda w, E: p_take(w, E, source(w, E, "x", (3,)), 0, [2, 0, 1]), 6)
+    reg("x2x2[:,[1,0,0]]", lambda w, E: p_take(w, E, source(w, E, "x", (2, 2)), 1, [1, 0, 0]), 6)
+    reg("(x2+y2)[[1,2,0]]", lambda w, E: p_take(w, E, _add_aligned(w, E, (2,)), 0, [1, 2, 0]), 8)
+    reg("transpose(x2x2)[[1,0]]", lambda w, E: p_take(w, E, p_transpose(w, source(w, E, "x", (2, 2)), (1, 0)), 0, [1, 0]), 8)
+    reg("x3[[2,0,1]][a:b]", lambda w, E: p_slice(w, p_take(w, E, source(w, E, "x", (3,)), 0, [2, 0, 1]), raw_index(E, (F,))), 10)
+    reg("blockwise(np.transpose,'ji',x2x2,'ij')", lambda w, E: p_blockwise_T(w, E, source(w, E, "x", (2, 2))), 3)
+    reg("blockwise(np.transpose,'ji',x2x2,'ij')[[1,0]]", lambda w, E: p_take(w, E, p_blockwise_T(w, E, source(w, E, "x", (2, 2))), 0, [1, 0]), 8)
+    reg("blockwise(np.transpose,'ji',x2x2,'ij')[a:b,i]", lambda w, E: p_slice(w, p_blockwise_T(w, E, source(w, E, "x", (2, 2))), raw_index(E, (F, "i"))), 6)
     # every pushdown target once: slice over X and rechunk over X
     reg("expand_dims(x2x2,(1,))[a:b,:,i]", lambda w, E: p_slice(w, p_expand(w, source(w, E, "x", (2, 2)), (1,)), raw_index(E, (F, (0, 0, None), "i"))), 4)
     reg("broadcast_to(x2,(n,)+shape)[i,a:b]", lambda w, E: p_slice(w, p_broadcast(w, source(w, E, "x", (2,)), (E.int("lead", 1),)), raw_index(E, ("i", F))), 4)
